@@ -110,7 +110,7 @@ fn uint_from_bits(bits: &[u8], ty: UIntType) -> R<UIntValue> {
 /// Spec value JSON (untyped) at a resolved type -> Simfony value.
 pub fn val_from_json(j: &J, ty: &ResolvedType) -> R<Value> {
     Ok(match (kind(j)?, ty.as_inner()) {
-        ("vbool", TypeInner::Boolean) => Value::from(j["v"].as_bool().ok_or("v")?),
+        ("vbool", TypeInner::Boolean) => Value::from(j["bv"].as_bool().ok_or("v")?),
         ("vu", TypeInner::UInt(u)) => Value::from(uint_from_bits(&bits_of(j)?, *u)?),
         ("vtup", TypeInner::Tuple(tys)) => {
             let es = arr(j, "es")?;
@@ -178,7 +178,7 @@ fn uint_bits(u: &UIntValue) -> Vec<u8> {
 /// Simfony value -> spec value JSON (untyped).
 pub fn val_to_json(v: &Value) -> J {
     match v.inner() {
-        ValueInner::Boolean(b) => json!({"k":"vbool","v": b}),
+        ValueInner::Boolean(b) => json!({"k":"vbool","bv": b}),
         ValueInner::UInt(u) => json!({"k":"vu","bits": uint_bits(u)}),
         ValueInner::Tuple(es) => json!({"k":"vtup","es": es.iter().map(val_to_json).collect::<Vec<_>>()}),
         ValueInner::Array(es) => json!({"k":"varr","es": es.iter().map(val_to_json).collect::<Vec<_>>()}),
@@ -248,4 +248,37 @@ fn push_token(out: &mut String, t: &J) -> R<()> {
         _ => return Err(format!("bad token {t}")),
     }
     Ok(())
+}
+
+/// Aliased type (parse-tree level) -> spec type JSON (aliases kept by name).
+pub fn aliased_to_json(ty: &simfony::types::AliasedType) -> J {
+    use simfony::types::TypeDeconstructible;
+    if let Some(name) = ty.as_alias() {
+        return json!({"k":"alias","name": name.as_inner()});
+    }
+    if let Some(b) = ty.as_builtin() {
+        return json!({"k":"builtin","name": b.to_string()});
+    }
+    if ty.is_boolean() {
+        return json!({"k":"bool"});
+    }
+    if let Some(u) = ty.as_integer() {
+        return json!({"k":"u","n": u.bit_width().get()});
+    }
+    if let Some(es) = ty.as_tuple() {
+        return json!({"k":"tup","es": es.iter().map(|e| aliased_to_json(e)).collect::<Vec<_>>()});
+    }
+    if let Some((e, n)) = ty.as_array() {
+        return json!({"k":"arr","e": aliased_to_json(e), "n": n});
+    }
+    if let Some((e, b)) = ty.as_list() {
+        return json!({"k":"list","e": aliased_to_json(e), "b": b.get()});
+    }
+    if let Some(e) = ty.as_option() {
+        return json!({"k":"opt","e": aliased_to_json(e)});
+    }
+    if let Some((l, r)) = ty.as_either() {
+        return json!({"k":"either","l": aliased_to_json(l), "r": aliased_to_json(r)});
+    }
+    json!({"k":"unknown"})
 }
